@@ -1,0 +1,35 @@
+//! Verification hooks, compiled only with `--cfg wirefilter_verif`.
+//!
+//! They let a test harness pick the SIMD anchor position that `contains`
+//! otherwise draws at random when a filter is compiled, and ask which search
+//! path is active, so that every position can be explored deterministically.
+use std::cell::Cell;
+
+thread_local! {
+    static CONTAINS_ANCHOR: Cell<Option<usize>> = const { Cell::new(None) };
+}
+
+/// Overrides (or, with `None`, stops overriding) the anchor position used by
+/// `contains` searchers compiled on this thread. Values outside `1..len` are
+/// ignored for a pattern of length `len`.
+pub fn set_contains_anchor(position: Option<usize>) {
+    CONTAINS_ANCHOR.with(|c| c.set(position));
+}
+
+pub(crate) fn contains_anchor(len: usize) -> Option<usize> {
+    CONTAINS_ANCHOR
+        .with(|c| c.get())
+        .filter(|position| (1..len).contains(position))
+}
+
+/// Returns whether the SIMD (AVX2) search path of `contains` is active.
+pub fn simd_active() -> bool {
+    #[cfg(any(target_arch = "x86", target_arch = "x86_64"))]
+    {
+        crate::ast::field_expr::verif_use_avx2()
+    }
+    #[cfg(not(any(target_arch = "x86", target_arch = "x86_64")))]
+    {
+        false
+    }
+}
